@@ -477,24 +477,20 @@ class DFXPWriter(BaseWriter):
         # We are left with creating tags manually, which is hard to understand
         # and harder to maintain
         if node.start:
-            styles = ''
-
-            content_with_style = _recreate_style(node.content, dfxp)
-            for style, value in list(content_with_style.items()):
-                styles += f' {style}={quoteattr(value)}'
+            # collect the attributes in a dict, so that none is written twice
+            # (positioning attributes win, as they do on <p> and <div>)
+            attributes = dict(_recreate_style(node.content, dfxp))
             if node.layout_info:
                 region_id, region_attribs = (
                     self.region_creator.get_positioning_info(
                         lang, caption_set, caption, node
                     ))
-                styles += f' region="{region_id}"'
+                attributes['region'] = region_id
                 if self.write_inline_positioning:
-                    styles += ' ' + ' '.join(
-                        [
-                            f'{k_}="{v_}"'
-                            for k_, v_ in list(region_attribs.items())
-                        ]
-                    )
+                    attributes.update(region_attribs)
+            styles = ''.join(
+                f' {k_}={quoteattr(v_)}' for k_, v_ in attributes.items()
+            )
 
             if styles:
                 if self.open_span:
